@@ -38,7 +38,7 @@ func c19FuncDef(r *Rng) J {
 	case k < 14:
 		return J{"function": "linear", "params": J{"a": -float64(r.Intn(5)) / 4, "b": float64(r.Intn(3)) / 8}}
 	default:
-		return J{"function": "expFromZero", "params": J{"alpha": float64(r.rangeInt(0, 6)) / 2, "multiplier": float64(r.rangeInt(0, 4)) / 4}}
+		return J{"function": "expFromZero", "params": J{"alpha": float64(r.rangeInt(-4, 6)) / 2, "multiplier": float64(r.rangeInt(-2, 4)) / 4}}
 	}
 }
 
@@ -152,7 +152,7 @@ func init() {
 }
 
 func c19Apply(o *Out, r *Rng, c int, thorough bool) {
-	opts := ReqOpts{}
+	opts := ReqOpts{ExtraWeightKey: 0.15}
 	if thorough {
 		opts.Prob.MaxCrit, opts.Prob.MaxAlt = 6, 9
 	}
